@@ -105,6 +105,20 @@ class Shadow:
                 todo += list(self.mp.get(x, {}).values())
         return out
 
+    def twice(self, m):
+        """Is some map reachable from m along two paths (a resource moved out of a staging map is still listed there)?
+        Then get_static_map() makes two snapshot objects for one map of the model; the adapter names a snapshot
+        node by the map it mirrors, so such a tree is not snapshotted (DESIGN section 6: leniency 'a node inside
+        the same tree twice')."""
+        seen, todo = set(), [m]
+        while todo:
+            x = todo.pop()
+            if x in seen:
+                return True
+            seen.add(x)
+            todo += list(self.mp.get(x, {}).values())
+        return False
+
     def places(self, node):
         return {(x, n) for x, d in self.mp.items() for n, c in d.items() if c == node} | \
                {(x, n) for x, ls in self.ly.items() for l in ls for n, h in l.items() if h == node}
@@ -194,7 +208,9 @@ def _draw(rnd, ad, sh, K, stale, cached, snaps, ident, k):
         busy = [m for m in order if not sh.blank(m)]
         args = (rnd.choice(busy if busy and rnd.random() < 0.85 else order),)
     elif op == 'Snapshot':
-        args = (root if rnd.random() < 0.6 else rnd.choice(order),)
+        m = root if rnd.random() < 0.6 else rnd.choice(order)
+        if not sh.twice(m):
+            args = (m,)
     elif op in ('Call', 'ClearHandle'):
         args = (rnd.choice(hd),)
     elif op == 'ArmFault':
